@@ -1160,6 +1160,21 @@ impl C17 {
                     } else {
                         root.iter().map(|r| r + grng.uniform(-rho, rho)).collect()
                     };
+                    // coordinates of the guess that may be exactly zero (the most common first guess there is)
+                    // are, half of the time: +0.0 or -0.0 — still inside the basin
+                    let mut guess = guess;
+                    for i in 0..n {
+                        let inside = if cm { root[2 * i].hypot(root[2 * i + 1]) <= rho } else { root[i].abs() <= rho };
+                        if inside && grng.chance(0.5) {
+                            let z = if grng.chance(0.25) { -0.0 } else { 0.0 };
+                            if cm {
+                                guess[2 * i] = z;
+                                guess[2 * i + 1] = 0.0;
+                            } else {
+                                guess[i] = z;
+                            }
+                        }
+                    }
                     (func, guess)
                 };
                 Case { entry, cfg, n, tol, delta, max_iter, guess, func, faults: vec![] }
